@@ -52,6 +52,15 @@ LEAVES = [
     L("ipv4", {"type": "string", "format": "ipv4"}, strish=True),
     L("ipv6", {"type": "string", "format": "ipv6"}, strish=True),
     L("str_unkfmt", {"type": "string", "format": "wibble"}, strish=True, enf=True),
+    # the remaining format names of the specification and of schemars' output (typify reads them as plain strings): the values a native
+    # type of that name would print differently (T / space, zone suffixes, case) are in the universe
+    L("fmt_time", {"type": "string", "format": "time"}, strish=True),
+    L("fmt_pdt", {"type": "string", "format": "partial-date-time"}, strish=True),
+    L("fmt_duration", {"type": "string", "format": "duration"}, strish=True),
+    L("fmt_uri", {"type": "string", "format": "uri"}, strish=True),
+    L("fmt_email", {"type": "string", "format": "email"}, strish=True),
+    L("fmt_hostname", {"type": "string", "format": "hostname"}, strish=True),
+    L("fmt_regex", {"type": "string", "format": "regex"}, strish=True),
     # string constraints
     L("str_min2", {"type": "string", "minLength": 2}, enf=True, strish=True),
     L("str_max2", {"type": "string", "maxLength": 2}, enf=True, strish=True),
@@ -297,6 +306,18 @@ SOLO_COMPOSITES = [
     L("str_unkfmt_max2", {"type": "string", "format": "hostname", "maxLength": 2}, enf=True, strish=True),
     L("map_minprops", {"type": "object", "additionalProperties": INT, "minProperties": 1}, enf=False),
     L("struct_bool_props", obj({"a": True, "b": False, "c": INT}, ["a"]), enf=False),
+    # compound member types whose ELEMENTS are named generated types, with and without a default (the element's path must be written for
+    # the scope it is used in: struct field, mod builder, mod defaults)
+    L("tuple_named", {"type": "array", "items": [{"$ref": "#/definitions/XKind"}, {"$ref": "#/definitions/XObj"}], "minItems": 2, "maxItems": 2},
+      defs={"XKind": {"type": "string", "enum": ["a", "b"]}, "XObj": obj({"s": STR, "n": INT}, ["s"])}, enf=True),
+    L("tuple_named_dflt", {"type": "array", "items": [{"$ref": "#/definitions/XKind"}, {"$ref": "#/definitions/XObj"}], "minItems": 2, "maxItems": 2, "default": ["a", {"s": "d"}]},
+      defs={"XKind": {"type": "string", "enum": ["a", "b"]}, "XObj": obj({"s": STR, "n": INT}, ["s"])}, enf=True),
+    L("arr2_named_dflt", {"type": "array", "items": {"$ref": "#/definitions/XKind"}, "minItems": 2, "maxItems": 2, "default": ["a", "b"]},
+      defs={"XKind": {"type": "string", "enum": ["a", "b"]}}, enf=True),
+    L("vec_named_dflt", {"type": "array", "items": {"$ref": "#/definitions/XKind"}, "default": ["b"]}, defs={"XKind": {"type": "string", "enum": ["a", "b"]}}, enf=True),
+    L("set_named_dflt", {"type": "array", "items": {"$ref": "#/definitions/XKind"}, "uniqueItems": True, "default": ["b"]}, defs={"XKind": {"type": "string", "enum": ["a", "b"]}}),
+    L("map_named_dflt", {"type": "object", "additionalProperties": {"$ref": "#/definitions/XKind"}, "default": {"k": "a"}}, defs={"XKind": {"type": "string", "enum": ["a", "b"]}}, enf=True),
+    L("nullable_named_dflt", {"oneOf": [{"$ref": "#/definitions/XObj"}, {"type": "null"}], "default": {"s": "d"}}, defs={"XObj": obj({"s": STR, "n": INT}, ["s"])}, enf=True),
     # sibling members whose in-line schemas carry ONE title but differ in content: the first type registered under the name is used for
     # all of them (C02-KF4's defect), so which one that is must at least be a function of the document
     L("same_title_inline", obj({"alpha": dict(obj({"a": STR}), title="Payload"), "bravo": dict(obj({"b": INT}), title="Payload"),
